@@ -28,7 +28,7 @@ from .server import LoopbackServer
 ST = "/venv/bin/st"
 SINKS = ["console", "curl", "junit", "vcr", "har"]
 ROUTES = ["user-header", "auth-basic", "gen-header", "gen-query", "gen-cookie", "url-userinfo", "resp-set-cookie", "resp-header",
-          "requests-auth"]
+          "requests-auth", "schema-userinfo", "schema-query"]
 CUSTOM = {"default": None, "custom-keys": {"keys_to_sanitize": ["X-Custom"]}, "custom-markers": {"sensitive_markers": ["Zeta"]}}
 NOT_GENERATED_HEADERS = {"accept", "content-type", "authorization", "cookie", "set-cookie", "user-agent", "location", "etag"}
 NOT_RESPONSE_HEADERS = {"content-type", "content-length", "set-cookie", "cookie", "location"}
@@ -117,7 +117,8 @@ print(json.dumps(rows))
 # (i') histories: re-configuration inside ONE process
 # ------------------------------------------------------------------------------------------------------------------
 OPS = {"configure-keys": ("configure", {"keys_to_sanitize": ["X-Custom"]}), "configure-markers": ("configure", {"sensitive_markers": ["Zeta"]}),
-       "extend-keys": ("extend", {"keys_to_sanitize": ["customer_ref"]}), "extend-markers": ("extend", {"sensitive_markers": ["Trace"]})}
+       "extend-keys": ("extend", {"keys_to_sanitize": ["customer_ref"]}), "extend-markers": ("extend", {"sensitive_markers": ["Trace"]}),
+       "configure-replacement": ("configure", {"replacement": "<hidden>"})}
 _hstate: dict = {}
 
 
@@ -126,7 +127,7 @@ def _reset_config() -> None:
     from schemathesis.core.output import sanitization as sz
 
     schemathesis.sanitization.configure(keys_to_sanitize=sorted(sz.DEFAULT_KEYS_TO_SANITIZE),
-                                        sensitive_markers=sorted(sz.DEFAULT_SENSITIVE_MARKERS))
+                                        sensitive_markers=sorted(sz.DEFAULT_SENSITIVE_MARKERS), replacement=sz.DEFAULT_REPLACEMENT)
 
 
 def hist_observe(item: tuple[int, dict, bool]) -> dict:
@@ -265,6 +266,12 @@ def plan_runs(ctx: Ctx, pool: list[str], default_keys: list[str]) -> list[dict]:
         headers_run("default", True, "X-Auth-Token", "X-Secret-Id", "client_secret", "csrftoken", "PHPSESSID", "X-Token", eq=True),
         {"mode": "auth", "cfg": "default", "sanitize": True, "slots": [{"route": "auth-basic", "name": "Authorization"}], "eq": True},
     ]
+    def location_run(cfg, sanitize, names):
+        return {"mode": "schema-location", "cfg": cfg, "sanitize": sanitize,
+                "slots": [{"route": "schema-userinfo", "name": "Authorization"}] + [{"route": "schema-query", "name": n} for n in names]}
+
+    runs += [location_run("default", True, ["api_key", "page", "X-Custom"]), location_run("default", False, ["api_key", "page"]),
+             location_run("custom-keys", True, ["X-Custom", "cookie", "token"])]
     # every default key x 3 spellings x {header, query, cookie}: 3 rotations; under custom markers only the exact-key rule can match
     runs += [key_run("default", True, r) for r in range(3)] + [key_run("custom-markers", True, r) for r in range(3)]
     runs.append(key_run("default", False, ctx.seed % 3))
@@ -325,7 +332,12 @@ def e2e_run(item: tuple[int, dict]) -> dict:
     d = tempfile.mkdtemp(prefix="c15-")
     try:
         with LoopbackServer(behaviour) as srv:
-            cmd = [ST, "run", srv.base_url + "/openapi.json", "--report", "junit,vcr,har", "--report-dir", d, "--phases", "fuzzing",
+            location = srv.base_url + "/openapi.json"
+            if mode == "schema-location":  # the credentials travel in the URL the schema is loaded from
+                location = "http://user:%s@127.0.0.1:%d/openapi.json?%s" % (
+                    by_route["schema-userinfo"][0]["canary"], srv.port,
+                    "&".join("%s=%s" % (quote(sl["name"], safe=""), sl["canary"]) for sl in by_route.get("schema-query", [])))
+            cmd = [ST, "run", location, "--report", "junit,vcr,har", "--report-dir", d, "--phases", "fuzzing",
                    "--max-examples", "2", "--checks", "not_a_server_error", "--workers", "1", "--seed", "1",
                    "--output-sanitize", "true" if run["sanitize"] else "false"]
             eq = run.get("eq", False)  # the --option=value spelling
@@ -358,10 +370,34 @@ def e2e_run(item: tuple[int, dict]) -> dict:
         # which slots were really exercised: the server log is the ground truth
         reqs = [r for r in log if r.path.endswith("/items")]
         sent = "\n".join(r.target + "\n" + "\n".join("%s: %s" % (k, v) for k, v in r.headers) for r in reqs)
+        sent_schema = "\n".join(r.target + "\n" + "\n".join("%s: %s" % (k, v) for k, v in r.headers)
+                                for r in log if r.path.endswith("/openapi.json"))
+        # a sink whose artifact is broken or incomplete cannot witness absence: it is not judged (and is reported as a note)
+        dead = []
+        try:
+            if len(json.loads(sinks["har"])["log"]["entries"]) < len(reqs):
+                dead.append("har")
+        except Exception:
+            dead.append("har")
+        try:
+            import yaml
+
+            if len(yaml.load(sinks["vcr"], Loader=getattr(yaml, "CSafeLoader", yaml.SafeLoader))["http_interactions"] or []) < len(reqs):
+                dead.append("vcr")
+        except Exception:
+            dead.append("vcr")
+        try:
+            import xml.etree.ElementTree as ET
+
+            ET.fromstring(sinks["junit"].encode("utf-8", "replace"))
+        except Exception:
+            dead.append("junit")
         routes, not_exercised = [], []
         for sl in slots:
             if sl["route"] in ("resp-set-cookie", "resp-header"):
                 exercised = bool(reqs) and any(sl["canary"] in v for _, v in resp_headers)
+            elif sl["route"].startswith("schema-"):
+                exercised = occurs(sl["canary"], sent_schema)
             else:
                 exercised = occurs(sl["canary"], sent)
             if exercised:
@@ -369,7 +405,7 @@ def e2e_run(item: tuple[int, dict]) -> dict:
                                "present": {s: occurs(sl["canary"], sinks[s]) for s in SINKS}})
             else:
                 not_exercised.append(sl["route"])
-        return {"cfg": run["cfg"], "sanitize": run["sanitize"], "mode": mode, "routes": routes, "idx": idx,
+        return {"cfg": run["cfg"], "sanitize": run["sanitize"], "mode": mode, "routes": routes, "idx": idx, "dead": dead,
                 "not_exercised": not_exercised, "canary": {sl["k"]: sl["canary"] for sl in slots},
                 "excerpt": {s: _excerpts(sinks[s], [sl["canary"] for sl in slots]) for s in SINKS}}
     finally:
@@ -454,7 +490,7 @@ def api_runs(kind: str, sanitize: bool, items: list[dict]) -> list[dict]:
             continue
         present = {s: False for s in SINKS}
         present["curl"] = occurs(it["canary"], row["text"])
-        out.append({"cfg": kind, "sanitize": sanitize, "mode": "api:" + it["carrier"], "idx": -1, "not_exercised": [],
+        out.append({"cfg": kind, "sanitize": sanitize, "mode": "api:" + it["carrier"], "idx": -1, "not_exercised": [], "dead": [],
                     "routes": [{"route": "requests-auth", "name": [ord(c) for c in it["name"]], "k": 0, "present": present}],
                     "canary": {0: it["canary"]}, "excerpt": {s: (_excerpts(row["text"], [it["canary"]]) if s == "curl" else []) for s in SINKS},
                     "item": it})
@@ -481,7 +517,7 @@ def name_class(name: str, cfg: str, sens: dict, route: str = "") -> str:
 
 def judge(ctx: Ctx, units: list[dict], runs: list[dict], tag: str = "obs", hists: list[dict] | None = None):
     f = ctx.path("%s.json" % tag)
-    tlc.write_json(f, {"units": units, "runs": [{"cfg": r["cfg"], "sanitize": r["sanitize"], "routes": r["routes"]} for r in runs],
+    tlc.write_json(f, {"units": units, "runs": [{"cfg": r["cfg"], "sanitize": r["sanitize"], "dead": r.get("dead", []), "routes": r["routes"]} for r in runs],
                        "hists": [{"steps": h["steps"], "outs": h["outs"]} for h in hists or []]})
     found: list = []
     res = tlc.require_ok(tlc.run_tlc("SanitizeJudge", "SanitizeJudge.cfg", env={"OBS_FILE": f}, workers=4, timeout=1800,
@@ -588,6 +624,8 @@ def run(ctx: Ctx) -> Outcome:
         mine = set()
         for x in r["routes"]:
             for s in SINKS:
+                if s in r.get("dead", []):
+                    continue
                 n_cells += 1
                 e = expected(text(x["name"]), r["cfg"], x["route"], s, r["sanitize"])
                 n_nontrivial += e == "absent"
@@ -609,7 +647,7 @@ def run(ctx: Ctx) -> Outcome:
         r = observed[i]
         for route, sink, direction, k in sorted(bad):
             nm = next(text(x["name"]) for x in r["routes"] if x["k"] == k and x["route"] == route)
-            cls = "userinfo" if route == "url-userinfo" else name_class(nm, r["cfg"], sens, route)
+            cls = "userinfo" if route in ("url-userinfo", "schema-userinfo") else name_class(nm, r["cfg"], sens, route)
             if r["mode"].startswith("api:"):
                 cls += ":" + r["mode"][4:]
                 rep = {"kind": "api", "cfg": r["cfg"], "sanitize": r["sanitize"], "item": r["item"]}
@@ -623,6 +661,10 @@ def run(ctx: Ctx) -> Outcome:
                     [e for e in r["excerpt"][sink] if r["canary"][k] in e][:1]), rep))
 
     not_ex = sum(len(r["not_exercised"]) for r in observed) + len(api_skipped)
+    dead_sinks = [(r["idx"], r["mode"], s) for r in observed for s in r.get("dead", [])]
+    if dead_sinks:
+        out.notes.append("%d sink artifacts were not well-formed / incomplete and therefore NOT judged (absence there would be vacuous), "
+                         "e.g. run #%d (%s): %s - see C16" % (len(dead_sinks), dead_sinks[0][0], dead_sinks[0][1], dead_sinks[0][2]))
     out.coverage = {
         "states": res.distinct + res_h.distinct, "transitions": res.generated + res_h.generated,
         "traces_validated_against_impl": len(units) + len(observed) + len(hobs),
@@ -633,7 +675,7 @@ def run(ctx: Ctx) -> Outcome:
         "evaluations": len(units) + sum(len(r["routes"]) * len(SINKS) for r in observed),
         "distinct_nontrivial": sum(1 for n in names if n["sensitive"]) + n_nontrivial,
         "name_cfg_pairs": len(names), "flow_matrix_cells": len(flows), "unit_observations": len(units),
-        "e2e_runs": len(plan), "api_channel_observations": len(api_obs), "default_keys": len(default_keys),
+        "e2e_runs": len(plan), "sinks_not_wellformed_not_judged": len(dead_sinks), "api_channel_observations": len(api_obs), "default_keys": len(default_keys),
         "e2e_slots_judged": sum(len(r["routes"]) for r in observed), "e2e_cells_judged": n_cells, "e2e_cells_expected_absent": n_nontrivial,
         "skipped_outside_fragment": not_ex, "routes_planned_but_not_exercised": not_ex,
         "samples": [{"cfg": r["cfg"], "sanitize": r["sanitize"], "mode": r["mode"],
@@ -707,9 +749,9 @@ def selftest(ctx: Ctx) -> bool:
              {"name": name, "cfg": "default", "form": "header-list", "redacted": False},
              {"name": [ord(c) for c in "Accept"], "cfg": "default", "form": "header-list", "redacted": True}]
     present = {s: False for s in SINKS}
-    runs = [{"cfg": "default", "sanitize": True, "routes": [{"route": "user-header", "name": name, "k": 0, "present": present}]},
-            {"cfg": "default", "sanitize": True, "routes": [{"route": "user-header", "name": name, "k": 0, "present": dict(present, vcr=True)}]},
-            {"cfg": "default", "sanitize": False, "routes": [{"route": "user-header", "name": name, "k": 0, "present": dict(present, vcr=True)}]}]
+    runs = [{"cfg": "default", "sanitize": True, "dead": [], "routes": [{"route": "user-header", "name": name, "k": 0, "present": present}]},
+            {"cfg": "default", "sanitize": True, "dead": [], "routes": [{"route": "user-header", "name": name, "k": 0, "present": dict(present, vcr=True)}]},
+            {"cfg": "default", "sanitize": False, "dead": ["har"], "routes": [{"route": "user-header", "name": name, "k": 0, "present": dict(present, vcr=True)}]}]
     xc = [ord(c) for c in "X-Custom"]
     steps = [{"kind": "S", "op": "-", "name": xc}, {"kind": "C", "op": "configure-keys", "name": []}, {"kind": "S", "op": "-", "name": xc}]
     good_h = {"steps": steps, "outs": [{"step": 1, "form": "url", "redacted": False}, {"step": 3, "form": "url", "redacted": True}]}
@@ -719,8 +761,7 @@ def selftest(ctx: Ctx) -> bool:
         print("selftest: history judge gave", hb)
         return False
     ok = ub == {1: {("header-list", "-", "leak")}, 2: {("header-list", "-", "over-redacted")}} and \
-        rb == {1: {("user-header", "vcr", "leak", 0)}, 2: {("user-header", "curl", "missing", 0), ("user-header", "junit", "missing", 0),
-                                                           ("user-header", "har", "missing", 0)}}
+        rb == {1: {("user-header", "vcr", "leak", 0)}, 2: {("user-header", "curl", "missing", 0), ("user-header", "junit", "missing", 0)}}
     if not ok:
         print("selftest: judge gave", ub, rb)
     return ok
